@@ -34,7 +34,7 @@ def intern_defs(terms_fn):
 
 _LOCK = threading.Lock()
 HEADER = 'From Teleport Require Import Base.Bytes Base.Outcome Model.Auth Model.AuthCheck.\n'
-SHARD = 12  # histories per Coq file (each has ~40 steps)
+SHARD = 8  # histories per Coq file (each has ~40 steps)
 
 KINDS = {
     1: 'model and code disagree on the outcome class (accepted / error / panic) of a registration or message',
@@ -83,7 +83,16 @@ def step_term(st, o):
     clients = coq_list(['(%s, %s)' % (cb(c['chain']), ('TSS %s' % cb(c.get('addr', ''))) if c['tss'] else 'Light')
                         for c in o['clients']])
     oa = o.get('ack')
-    fcb = '(%s, %s, %s)' % (N(oa['code']), cb(bytes.fromhex(oa.get('result', ''))), cb(oa.get('message', ''))) if oa else '(0%N, [], [])'
+    # the destination callback as TABULATED by the harness (its own CallPacket on a discarded branch), never the observed ack
+    fc = o.get('cb')
+    if not fc or fc['kind'] == 3:
+        fcb = '(CfRet None)'
+    elif fc['kind'] == 1:
+        fcb = 'CfFailed'
+    elif fc['kind'] == 2:
+        fcb = '(CfRet (Some (%s, %s, %s)))' % (N(fc['code']), cb(bytes.fromhex(fc.get('result', ''))), cb(fc.get('message', '')))
+    else:
+        fcb = 'CfPanic'
     facts = '{| f_clients := %s; f_self := %s; f_lower := %d; f_cb := %s |}' % (clients, cb(o['self']), o['lower'], fcb)
     reg = coq_list(['(%s, (%s, %s))' % (cb(r['address']), coq_list([cb(c) for c in r['chains']]),
                                         coq_list([cb(c) for c in r['addrs']])) for r in o['reg']])
@@ -101,7 +110,21 @@ def hist_term(r):
     return '{| h_canon := %s; h_bech := %s; h_steps := %s |}' % (canon, bech, coq_list(steps))
 
 
-def evaluate(workdir, results, tag='cases'):
+BRANCHES = {
+    100: 'update_accepted', 101: 'update_chain_not_listed', 102: 'update_no_client', 103: 'update_tss_checkmsg_failed',
+    104: 'update_lower_rejected', 105: 'update_lower_panic',
+    201: 'recv_tss_signer_mismatch', 202: 'recv_lower_rejected', 203: 'recv_lower_panic', 204: 'recv_addresses_index_out_of_range',
+    205: 'recv_source_not_listed', 210: 'recv_ack_callback_failed', 211: 'recv_ack_callback_code0', 212: 'recv_ack_callback_code_nonzero',
+    213: 'recv_callback_result_undecodable', 214: 'recv_callback_panic', 215: 'recv_ack_dst_unknown', 216: 'recv_relayed_no_ack',
+    300: 'ack_accepted_source_chain_payout', 301: 'ack_tss_signer_mismatch', 302: 'ack_lower_rejected', 303: 'ack_undecodable',
+    304: 'ack_all_zero', 305: 'ack_accepted_relay_chain', 306: 'ack_reverse_lookup_out_of_range', 307: 'ack_relayer_unresolved',
+    308: 'ack_payee_not_bech32',
+    400: 'reg_new_record', 401: 'reg_rejected_validate_basic', 402: 'reg_empty_address_panic', 403: 'reg_record_replaced',
+}
+BRANCH_COUNTS = Counter()   # filled by evaluate(..., count_branches=True): the model branch of every step (Model/AuthCheck.step_branch)
+
+
+def evaluate(workdir, results, tag='cases', count_branches=False):
     """returns (mismatches, monitor_failures) as lists of (hist, step, kind), or (None, log) on a Coq failure"""
     shards = [results[i:i + SHARD] for i in range(0, len(results), SHARD)]
 
@@ -110,16 +133,24 @@ def evaluate(workdir, results, tag='cases'):
         with _LOCK:
             idefs, terms = intern_defs(lambda: [hist_term(r) for r in sh])
         defs = idefs + 'Definition cases : list hist := %s.\n' % coq_list(terms)
-        res = vlib.coq_eval_lists(workdir, '%s_%d.v' % (tag, i), HEADER, defs,
-                                  [('M', 'mismatches cases'), ('F', 'monitor_failures cases')])
+        queries = [('M', 'mismatches cases'), ('F', 'monitor_failures cases')]
+        if count_branches:
+            queries.append(('B', 'branches cases'))
+        res = vlib.coq_eval_lists(workdir, '%s_%d.v' % (tag, i), HEADER, defs, queries)
         m = vlib.parse_nat_tuples(res.get('M'), 3)
         f = vlib.parse_nat_tuples(res.get('F'), 3)
         if res['_rc'] != 0 or m is None or f is None:
             return ('error', res['_out'][-3000:])
+        if count_branches:
+            b = vlib.parse_nat_tuples(res.get('B'), 1)
+            if b is None:
+                return ('error', res['_out'][-3000:])
+            with _LOCK:
+                BRANCH_COUNTS.update(x[0] for x in b)
         off = i * SHARD
         return ([(h + off, s, k) for h, s, k in m], [(h + off, s, k) for h, s, k in f])
 
-    outs = vlib.parallel(one, list(enumerate(shards)), workers=12)
+    outs = vlib.parallel(one, list(enumerate(shards)), workers=16)
     mm, ff = [], []
     for o in outs:
         if o[0] == 'error':
@@ -139,7 +170,8 @@ def run_specs(workdir, specs, tag):
     return vlib.read_jsonl(out)
 
 
-B_CHAIN = 'teleport_9000-11'
+B_CHAIN = 'teleport_9000-11'   # xibctesting.GetChainID(1): the real Tendermint counterparty
+A_CHAIN = 'teleport_9000-10'   # xibctesting.GetChainID(0): the chain under test
 
 
 def corpus():
@@ -171,6 +203,51 @@ def corpus():
                                                g('notbech32', [B_CHAIN], ['0xA']), dict(k='raw', addr='@acct0', chains=['ghost-net', B_CHAIN], addrs=['0xA']),
                                                m('recv', 0, B_CHAIN), m('update', 0, B_CHAIN), m('ack', 1, B_CHAIN, ack_relayer='0xA'),
                                                dict(k='raw', addr='', chains=[B_CHAIN], addrs=['0xA'])]),
+        # EVERY acknowledgement-writing branch of RecvPacket, with registrations whose counterparty address differs from
+        # the relayer's own address (as for every real relayer), light-client source: callback reports failure by value
+        # (code 2 / 3), callback fails as a whole (CallPacket error, code 1), callback succeeds (code 0)
+        dict(id=9006, seed=16, tss=tss, steps=[g('@acct0', ['tss-one', B_CHAIN, B_CHAIN], ['0xREG-T', '0xREG-B', '0xREG-B2']),
+                                               m('recv', 0, B_CHAIN, fee_opt=1), m('recv', 0, B_CHAIN, payload='cbfail', fee_opt=2),
+                                               m('recv', 0, B_CHAIN, payload='ok'), m('recv', 0, B_CHAIN, payload='revert'),
+                                               g('@acct0', [B_CHAIN], ['@acct1']), m('recv', 0, B_CHAIN, payload='cbfail'),
+                                               m('recv', 1, B_CHAIN, payload='cbfail')]),
+        # the same for a TSS-secured source chain
+        dict(id=9007, seed=17, tss=tss, steps=[g('@acct2', [B_CHAIN, 'tss-one'], ['0xTSS-B', '0xTSS-T']),
+                                               g('@acct3', ['tss-one'], ['0xOTHER']),
+                                               m('recv', 2, 'tss-one', payload='cbfail', fee_opt=1), m('recv', 2, 'tss-one', payload='ok'),
+                                               m('recv', 2, 'tss-one'), m('recv', 2, 'tss-one', payload='revert'),
+                                               m('recv', 3, 'tss-one', payload='cbfail'), m('recv', 3, 'tss-one', flavor='tssproof', payload='cbfail')]),
+        # packets that are not for this chain (source = a TSS client under the chain's own name): unknown destination =>
+        # error acknowledgement "dstChain not found"; known destination => relayed onwards, no acknowledgement here
+        dict(id=9008, seed=18, tss=[dict(name='tss-one', acct=2), dict(name='@self', acct=4)],
+             steps=[g('@acct4', ['tss-one', A_CHAIN], ['0xSELF-T', '0xSELF-A']), m('recv', 4, '@self', dst='ghost-net', fee_opt=2),
+                    m('recv', 4, '@self', dst=B_CHAIN), m('recv', 4, '@self', dst='tss-one', payload='cbfail'),
+                    m('recv', 0, '@self', dst='ghost-net'), m('recv', 4, '@self', payload='cbfail')]),
+        # neighbours of a chain name (other case, prefix, extension) confer nothing for the chain itself
+        dict(id=9009, seed=19, tss=tss, steps=[g('@acct0', [B_CHAIN.upper(), B_CHAIN[:-1], B_CHAIN + '0', 'TSS-ONE', 'tss-on', 'tss-one0'],
+                                                 ['0x1', '0x2', '0x3', '0x4', '0x5', '0x6']),
+                                               m('update', 0, B_CHAIN), m('recv', 0, B_CHAIN), m('update', 0, 'tss-one', new_tss=2),
+                                               g('@acct2', ['TSS-ONE', 'tss-on', 'tss-one0'], ['0x4', '0x5', '0x6']),
+                                               m('update', 2, 'tss-one', new_tss=2), m('recv', 2, 'tss-one', payload='cbfail')]),
+        # a record imported by an unvalidated genesis under a key that is no bech32 address: its counterparty address
+        # resolves in the reverse look-up, but the payee does not parse => the acknowledgement is rejected, nothing paid;
+        # a relayer of a chain that has no client cannot update it
+        dict(id=9010, seed=20, tss=tss, steps=[dict(k='raw', addr='notbech32', chains=[B_CHAIN], addrs=['0xNB']),
+                                               m('ack', 1, B_CHAIN, ack_relayer='0xnb'), g('@acct1', [B_CHAIN, 'ghost-net'], ['0xNB', '0xG']),
+                                               m('ack', 1, B_CHAIN, ack_relayer='0xnb'), m('update', 1, 'ghost-net'),
+                                               m('recv', 1, 'ghost-net')]),
+        # the TSS comparison of receive / acknowledgement is on the STRING msg.Signer: the other-case form of the TSS
+        # address is refused even when that string has its own relayer record (TSS address configured in lower case,
+        # then in upper case)
+        dict(id=9011, seed=21, tss=tss, steps=[g('@ACCT2', ['tss-one'], ['0xUP']), g('@acct2', ['tss-one'], ['0xLOW']),
+                                               m('recv', 2, 'tss-one', upper=True, payload='ok'), m('ack', 2, 'tss-one', upper=True, ack_relayer='0xup'),
+                                               m('update', 2, 'tss-one', upper=True, new_tss=2), m('recv', 2, 'tss-one', payload='ok'),
+                                               m('ack', 2, 'tss-one', ack_relayer='0xlow')]),
+        dict(id=9012, seed=22, tss=[dict(name='tss-one', acct=2, upper=True)],
+             steps=[g('@ACCT2', ['tss-one'], ['0xUP']), g('@acct2', ['tss-one'], ['0xLOW']),
+                    m('recv', 2, 'tss-one', payload='ok'), m('ack', 2, 'tss-one', ack_relayer='0xlow'),
+                    m('recv', 2, 'tss-one', upper=True, payload='cbfail'), m('ack', 2, 'tss-one', upper=True, ack_relayer='0xUP'),
+                    m('update', 2, 'tss-one', upper=True, new_tss=2, new_up=True), m('update', 2, 'tss-one', new_tss=2, new_up=True)]),
     ]
 
 
@@ -224,6 +301,24 @@ def shrink(workdir, spec, which):
     return best
 
 
+def samples_of(results):
+    """a few of the actual cases: a corpus history and two generated ones, each step with what was observed"""
+    out = []
+    picks = [r for r in results if r['spec']['id'] == 9006][:1] + [r for r in results if r['spec']['id'] < 9000][:2]
+    for r in picks:
+        steps = []
+        for st, o in list(zip(r['spec']['steps'], r['obs']))[:10]:
+            e = dict(step=st, outcome={0: 'accepted', 1: 'rejected', 2: 'panic(recovered)'}[o['class']], lower_layer=o['lower'],
+                     state_unchanged=o['same'])
+            if o.get('ack'):
+                e['written_ack'] = dict(code=o['ack']['code'], relayer=o['ack']['relayer'], fee_opt=o['ack']['fee_opt'])
+            if o.get('payee'):
+                e['fee_payee'] = o['payee']
+            steps.append(e)
+        out.append(dict(history_id=r['spec']['id'], tss_clients=r['spec']['tss'], first_steps=steps))
+    return out
+
+
 def stats(results):
     dist = Counter()
     nontrivial = set()
@@ -243,6 +338,20 @@ def stats(results):
                     dist['signer_uppercase_form'] += 1
                 if o.get('ack'):
                     dist['ack_written'] += 1
+                if k == 'recv' and o['class'] == 0:
+                    # which branch of msg_server.RecvPacket (from the TABULATED facts, not from the ack text) and whether
+                    # the registered counterparty address differs from the signer's own string
+                    fc = o.get('cb')
+                    if o['dst'] != o['self']:
+                        br = 'relayed_no_ack' if any(c['chain'] == o['dst'] for c in o['clients']) else 'ack_dst_unknown'
+                    elif fc and fc['kind'] == 1:
+                        br = 'ack_callback_failed'
+                    elif fc and fc['kind'] == 2:
+                        br = 'ack_callback_code0' if fc['code'] == 0 else 'ack_callback_code_nonzero'
+                    else:
+                        br = 'other'
+                    differs = bool(o.get('ack')) and o['ack']['relayer'] != o['signer_str']
+                    dist['recv_branch_%s%s' % (br, '_addr_differs_from_signer' if differs else '')] += 1
                 if o.get('payee'):
                     dist['fee_payee_observed'] += 1
                 nontrivial.add(json.dumps([k, ckind, o['lower'], o['class'], o['signer_str'] in [x['address'] for x in o['reg']],
@@ -301,6 +410,35 @@ def eval_contracts(workdir, rows, tag='contracts'):
     return f, [x[0] for x in u]
 
 
+def module_calls():
+    """the regenerated inventory of EVM calls made by the keepers (Gen/ModCallsGen.v, written by tools/gotocoq/modcalls):
+    list of dict(file, func, kind, frm, target, methods)"""
+    import re
+    path = os.path.join(vlib.THEORIES, 'Gen', 'ModCallsGen.v')
+    out = []
+    if not os.path.exists(path):
+        return out
+    for m in re.finditer(r'\(\* (\S+) (\S+) kind (\d) from "([^"]*)" target "([^"]*)" methods \[([^\]]*)\] \*\)', open(path).read()):
+        out.append(dict(file=m.group(1), func=m.group(2), kind=int(m.group(3)), frm=m.group(4), target=m.group(5),
+                        methods=m.group(6).split()))
+    return out
+
+
+def module_call_pairs(calls):
+    """(contract.method, caller kind name) pairs the Go modules exercise on the packet / endpoint contracts"""
+    pairs = {}
+    for c in calls:
+        if c['kind'] == 0 or 'xibc_packet.PacketContractAddress' in c['target']:
+            cn, who = 'packet', 'xibc-module'
+        elif 'xibc_endpoint.EndpointContractAddress' in c['target']:
+            cn, who = 'endpoint', 'aggregate-module'
+        else:
+            continue
+        for m in c['methods']:
+            pairs.setdefault((cn + '.' + m, who), []).append('%s:%s' % (c['file'], c['func']))
+    return pairs
+
+
 def part_b(run):
     """returns False if the stage could not run"""
     seeds = [run.seed * 100 + i for i in range(run.budget(2, 12))]
@@ -353,6 +491,21 @@ def part_b(run):
             e['accepted' if r['effect'] else 'rejected'] += 1
             if not r['same']:
                 e['changed'] += 1
+    # tie between the two halves: every non-view method the Go modules call on the packet / endpoint contract (regenerated
+    # inventory) must have been ACCEPTED by the byte code from that module's address in the enumeration
+    nonview = {CONTRACTS[c] + '.' + m for c, m in abi_nonview()}
+    mpairs = module_call_pairs(module_calls())
+    not_accepted = sorted('%s <- %s (called in %s)' % (k[0], k[1], ', '.join(sorted(set(v)))) for k, v in mpairs.items()
+                          if k[0] in nonview and matrix.get(k, dict(accepted=0))['accepted'] == 0)
+    if not_accepted:
+        run.violation(dict(kind='module-call-not-accepted', pairs=not_accepted,
+                           explanation='a keeper calls a system-contract method from a module address the byte code never accepted in '
+                                       'the enumeration: either the call site uses the wrong caller or the contract no longer admits '
+                                       'the module'), no_input=True, name='replay_module_calls.json')
+    run.coverage['module_calls'] = dict(
+        source='tools/gotocoq/modcalls -> Gen/ModCallsGen.v (obligation C06_module_calls_ok)',
+        privileged_methods_exercised_by_go={'%s <- %s' % k: sorted(set(v)) for k, v in sorted(mpairs.items())},
+        all_accepted_by_bytecode=not not_accepted)
     priv_rej = sorted({k[0] + ' <- ' + k[1] for k, v in matrix.items() if v['accepted'] == 0 and v['changed'] == 0})
     accepted = sorted({k[0] + ' <- ' + k[1] for k, v in matrix.items() if v['accepted'] > 0})
     run.coverage['contracts'] = dict(
@@ -364,24 +517,49 @@ def part_b(run):
     return True
 
 
-def coqchk(run):
-    """thorough tier: independent re-check of the compiled closure of Props/C06 and Refuted/C06_refuted"""
-    rc, out = vlib.sh(['coqchk', '-silent', '-o', '-Q', vlib.THEORIES, 'Teleport', 'Teleport.Props.C06', 'Teleport.Refuted.C06_refuted'],
-                      cwd=vlib.COQ, timeout=1500)
-    ok = rc == 0 and 'Axioms:' in out and '<none>' in out.split('Axioms:')[1][:40]
-    run.coverage['coqchk'] = dict(rc=rc, axioms_none=ok, tail=out[-400:])
-    return ok
+EXTRA_PROPS = 'theories/Props/C06_packet.v'
+
+
+def coqchk_extra(run):
+    """thorough tier: run.coqchk_stage() covers Props/C06 + Refuted/C06_*; the refinement file gets its own coqchk"""
+    import re
+    rc, out = vlib.sh(['coqchk', '-silent', '-o', '-Q', vlib.THEORIES, 'Teleport', 'Teleport.Props.C06_packet'], cwd=vlib.COQ, timeout=2400)
+    m = re.search(r'\* Axioms:(.*?)\n\s*\n\* Constants', out, flags=re.S)
+    axioms = m.group(1).strip() if m else 'unparsed'
+    run.coverage['coqchk_C06_packet'] = dict(rc=rc, axioms=axioms)
+    if rc != 0 or axioms != '<none>':
+        run.proof['build_ok'] = False
+        run.proof['build_log'] += '\n[coqchk C06_packet]\n' + out[-2000:]
+
+
+def search_harder(run, nproc, per, steps):
+    more, _ = gen_run(run, nproc, per * 2 if run.quick() else per // 4, steps, tag='search', seed_off=500)
+    if not more:
+        return
+    mm2, ff2 = evaluate(run.work, more, 'search_cases')
+    if mm2 is None:
+        return   # the evaluation itself failed: nothing found by the search
+    for h, s, k in ff2[:1]:
+        spec = dict(more[h]['spec'])
+        spec['steps'] = spec['steps'][:s + 1]
+        small = shrink(run.work, spec, 'monitor')
+        run.violation(dict(kind='monitor', code=k, what=KINDS.get(k), spec=small, failing_step=s, found_by='search after a '
+                           'model/implementation mismatch', observed=more[h]['obs'][s]), name='replay_h_search%d.json' % h)
 
 
 def check(run):
-    pr = run.proof_stage()
+    # Props/C06.v + Refuted/C06_refuted.v + the refinement theorems between the authorization model and the packet-core model
+    pr = run.proof_stage(extra_modules=[EXTRA_PROPS])
+    if not run.quick():
+        run.coqchk_stage()   # independent re-check of the .vo closure; a failure / an axiom marks the proof stage broken
+        coqchk_extra(run)
     ok, out = vlib.build_harness(['c06'])
     if not ok:
         run.violation(dict(kind='harness-build-failed', log=out[-3000:],
                            explanation='the correspondence harness no longer builds against /repo'), no_input=True)
         return run.finish()
     nproc = 8
-    per = run.budget(30, 300)
+    per = run.budget(24, 250)
     steps = run.budget(40, 60)
     results, log = gen_run(run, nproc, per, steps)
     if results is not None:
@@ -396,7 +574,8 @@ def check(run):
                                        'set-up calls of the real code failed'), no_input=True)
         part_b(run)  # the contract enumeration may still locate the cause
         return run.finish()
-    mm, ff = evaluate(run.work, results)
+    BRANCH_COUNTS.clear()
+    mm, ff = evaluate(run.work, results, count_branches=True)
     if mm is None:
         run.violation(dict(kind='coq-evaluation-failed', log=ff), no_input=True)
         return run.finish()
@@ -409,7 +588,9 @@ def check(run):
              'real Tendermint counterparty (real headers and IAVL proofs) and TSS clients; distinct = distinct (kind, client '
              'type, lower-layer verdict, outcome, signer registered?, registry content)',
         distribution=dict(dist), model_mismatches=len(mm), monitor_failures=len(ff),
-        samples=[results[0]['spec']['steps'][:6]] if results else []))
+        model_branches={BRANCHES.get(c, str(c)): BRANCH_COUNTS.get(c, 0) for c in sorted(BRANCHES)},
+        model_branches_never_reached=[BRANCHES[c] for c in sorted(BRANCHES) if BRANCH_COUNTS.get(c, 0) == 0],
+        samples=samples_of(results)))
     run.coverage['partial'] = ('PARTIAL: the Go-side authorization logic is proved (Props/C06.v) and tied by the differential run; the '
                                'msg.sender checks inside the XIBC system contracts exist only as EVM byte code and are validated by an '
                                'exhaustive non-view-method x caller-kind enumeration on the real byte code (arguments sampled), NOT proved')
@@ -438,6 +619,14 @@ def check(run):
                            observed=results[h]['obs'][s]), name='replay_h%d.json' % h)
         if len(run.violations) >= 3:
             break
+    if mm and not [v for v in run.violations if 'replay_h' in v[0]]:
+        # model and code disagree but no monitor failed: search harder for a concrete input that violates the property
+        # itself (twice the generated budget of the quick tier, fresh seeds) before reporting the correspondence as broken;
+        # a failure of this optional search must never hide the correspondence violation reported below
+        try:
+            search_harder(run, nproc, per, steps)
+        except Exception as e:  # noqa
+            run.coverage['search_error'] = repr(e)[:300]
     if not [v for v in run.violations if 'replay_h' in v[0]]:
         for h, s, k in mm[:1]:
             spec = dict(results[h]['spec'])
@@ -450,8 +639,6 @@ def check(run):
                           name='replay_corr_h%d.json' % h, no_input=True)
         if not run.proof_ok():
             run.proof_violation()
-        elif not run.quick() and not coqchk(run):
-            run.violation(dict(kind='coqchk-failed', log=run.coverage['coqchk']['tail']), no_input=True)
     return run.finish()
 
 
